@@ -1,5 +1,36 @@
-(* placeholder while the proofs are being developed *)
-From Coq Require Import ZArith.
-From Stk Require Import T.Model T.Spec.
-Theorem C19_order : True. Proof. exact I. Qed.
+(** Property C19: fixed timers firing in one run execute in deadline order.
+    Only property theorems live here; each is closed by [exact] of a lemma of coq/T. *)
+From Coq Require Import ZArith List Bool.
+From Stk Require Import Lib.U Gen.SrcTimers T.Model T.Spec T.Inv T.Rel T.Main T.Witness.
+Import ListNotations.
+Local Open Scope Z_scope.
+
+(** For every good history that is band-free (no fixed timer is created with an expiry e such that
+    now + 32767 s - 2 * 2^14 ns <= e < now + 32767 s: the class NearBoundaryVar of known finding F6)
+    the C19 monitor of T/Spec.v is true at every run: among the fixed timers created less than
+    32767 s ahead that fire in one run, no timer runs before another whose deadline
+    (max (expiry, creation time)) is two resolution steps or more earlier, and timers given the
+    identical instant at the same time run in creation order. *)
+Theorem C19_order : forall ops, good ops -> band_free ops -> v19 (mon_all (model_history ops)) = true.
+Proof. exact C19_all. Qed.
+Check C19_order : forall ops, good ops -> band_free ops -> v19 (mon_all (model_history ops)) = true.
 Print Assumptions C19_order.
+
+(** the excluded classes are necessary.  F3 (SeqWrap): with the fixed-timer sequence at its 31-bit
+    wrap two timers given the identical instant run in reverse creation order *)
+Theorem F3_refuted :
+  Z.of_nat (length f3_ops) < HMAX /\ Forall op_bounds f3_ops /\ NoDup (ops_cbs f3_ops) /\
+  wellkeyed (model_history f3_ops) = true /\ uses_poke f3_ops = true /\ band_free f3_ops /\
+  v19 (mon_all (model_history f3_ops)) = false.
+Proof. exact F3_witness. Qed.
+(** F6 (NearBoundaryVar): a good history inside the band, no poke needed *)
+Theorem F6_refuted :
+  good f6_ops /\ band_free_from 0 (model_history f6_ops) = false /\
+  v19 (mon_all (model_history f6_ops)) = false.
+Proof. exact F6_witness. Qed.
+Print Assumptions F6_refuted.
+
+Example C19_good_satisfiable : good good_ops /\ band_free good_ops.
+Proof. exact good_ops_good. Qed.
+Example C19_good_verdict : v_all (mon_all (model_history good_ops)) = true.
+Proof. exact good_ops_verdict. Qed.
